@@ -1,6 +1,10 @@
 package retransmission
 
-import "github.com/keep-network/keep-core/pkg/net"
+import (
+	"sync"
+
+	"github.com/keep-network/keep-core/pkg/net"
+)
 
 // Strategy represents a specific retransmission strategy.
 type Strategy interface {
@@ -44,6 +48,10 @@ func (ss *StandardStrategy) Tick(retransmitFn RetransmitFn) error {
 // ticks, between third and fourth is 4 ticks and so on. Graphically, the
 // schedule looks as follows: R _ R _ _ R _ _ _ _  R _ _ _ _ _ _ _ _ R
 type BackoffStrategy struct {
+	// mutex protects the strategy state. Tick can be called concurrently
+	// from multiple goroutines.
+	mutex sync.Mutex
+
 	tickCounter    uint64
 	delay          uint64
 	retransmitTick uint64
@@ -61,14 +69,27 @@ func WithBackoffStrategy() *BackoffStrategy {
 
 // Tick implements the Strategy.Tick function.
 func (bos *BackoffStrategy) Tick(retransmitFn RetransmitFn) error {
+	if bos.shouldRetransmit() {
+		return retransmitFn()
+	}
+
+	return nil
+}
+
+// shouldRetransmit registers a new tick and decides whether the retransmission
+// routine should be triggered for that tick.
+func (bos *BackoffStrategy) shouldRetransmit() bool {
+	bos.mutex.Lock()
+	defer bos.mutex.Unlock()
+
 	bos.tickCounter++
 
 	if bos.tickCounter == bos.retransmitTick {
 		bos.retransmitTick += bos.delay + 1
 		bos.delay *= 2
 
-		return retransmitFn()
+		return true
 	}
 
-	return nil
+	return false
 }
